@@ -81,6 +81,29 @@ def run(ctx) -> None:
         if ok:
             why = "every item appends exactly once to every output's list (or raises)"
     rep.add("C10.R1", f"{coll.qname}:balanced-append", ok, coll.loc(), why)
+    # a failed item (continue mode) contributes None for every output: under 'item FAILED, mode is not raise'
+    # every reachable append stores the constant None (partial values of the failed run are not data)
+    fval = {}
+    for t in cfg.nodes:
+        if t.kind == "test" and t.ast is not None:
+            for a in test_atoms(t.ast):
+                txt = src(a).replace('"', "'")
+                if isinstance(a, ast.Compare) and len(a.ops) == 1 and isinstance(a.ops[0], (ast.Eq, ast.Is)):
+                    if "FAILED" in txt and ".status" in txt:
+                        fval[src(a)] = True
+                    if "error_handling" in txt and "'raise'" in txt:
+                        fval[src(a)] = False
+    live = reachable(cfg.entry, specialize(fval, cfg))
+    live_app = [x for x in appends if x in live]
+    okf = bool(fval) and bool(live_app)
+    whyf = "failed-item handling not recognised"
+    if okf:
+        whyf = "a failed item appends None to every output list"
+        for x in live_app:
+            c = [c for c in cfg.calls_at(x) if isinstance(c.func, ast.Attribute) and c.func.attr == "append"][0]
+            if not (len(c.args) == 1 and isinstance(c.args[0], ast.Constant) and c.args[0].value is None):
+                okf, whyf = False, f"for a failed item '{src(c)[:60]}' is reachable: the partial values its run completed before failing are collected as if they were results (the list must hold None where the item failed)"
+    rep.add("C10.R1", f"{coll.qname}:failed-item-is-None", okf, coll.loc(), whyf)
     # initialised with one list per output
     init = [n for n in walk_local(coll.node) if isinstance(n, (ast.Assign, ast.AnnAssign)) and isinstance(n.value, ast.DictComp) and "outputs" in src(n.value.generators[0].iter) and isinstance(n.value.value, ast.List) and not n.value.value.elts]
     rep.add("C10.R1", f"{coll.qname}:one-list-per-output", bool(init), coll.loc(), "collector starts with an empty list for every output of the node" if init else "collector is not initialised with one empty list per node output")
@@ -243,6 +266,7 @@ HP = "src/hypergraph/runners/_shared/helpers.py"
 TA = "src/hypergraph/runners/_shared/template_async.py"
 TS = "src/hypergraph/runners/_shared/template_sync.py"
 VARIANTS = [
+    Variant("failed-item-partial-values", "src/hypergraph/runners/_shared/helpers.py", replace_once("            # Continue mode: use None placeholders to preserve list length\n            for name in node.outputs:\n                collected[name].append(None)\n            continue\n", ""), {"C10.R1"}),
     Variant("nested-map-drops-overriding-broadcast", "src/hypergraph/runners/sync/executors/graph_node.py", replace_once("if not (k in inner_bound and v is inner_bound[k])}", "if k not in inner_bound}"), {"C10.R5"}),
     Variant("twin-nested-map-filter-demorgan", "src/hypergraph/runners/async_/executors/graph_node.py", replace_once("if not (k in inner_bound and v is inner_bound[k])}", "if k not in inner_bound or v is not inner_bound[k]}"), set()),
     Variant("collector-conditional-append", HP, replace_once("            collected[name].append(renamed_values.get(name))", "            if name in renamed_values:\n                collected[name].append(renamed_values[name])"), {"C10.R1"}),
